@@ -209,8 +209,11 @@ ares_status_t ares_send_nolock(ares_channel_t *channel, ares_server_t *server,
    */
   if (!ares_htable_szvp_insert(channel->queries_by_qid, query->qid, query)) {
     /* LCOV_EXCL_START: OutOfMemory */
-    callback(arg, ARES_ENOMEM, 0, NULL);
+    /* The query is already linked into all_queries with its callback set.
+     * Unlink and free it first, otherwise a callback that calls ares_cancel()
+     * would complete and free it a second time. */
     ares_free_query(query);
+    callback(arg, ARES_ENOMEM, 0, NULL);
     return ARES_ENOMEM;
     /* LCOV_EXCL_STOP */
   }
